@@ -84,6 +84,27 @@ SEEDS = {
  'C19-r2-udf-dst-all-year': (None, 'C19', 'a UDF image, a zone with DST rules and an instant in its standard-time period', ['C19']),
  'C20-r2-nm-appended-to-fallback': (None, 'C20', '-iso-level 4 with -R and a name of about 182..193 bytes (no NM byte fits the directory record), after reopening', ['C20', 'C08']),
  'C20-r2-udf-file-entry-cache': (None, 'C20', '-udf with -scan-for-duplicates and two files of identical content, extracted through the UDF view', ['C20', 'C07']),
+ # ---- round 3: agents steered to different parts of the code
+ 'C01-r3-udf-fid-remove-length': (None, 'C01', 'removal of a UDF entry whose 8-bit name is 1, 5, 9, 13 ... characters long', ['C01', 'C10']),
+ 'C01-r3-udf-dir-overhang-reset': (None, 'C01', 'a UDF directory needing three or more blocks of file identifiers', ['C01', 'C10']),
+ 'C02-r3-udf-empty-files-share-inode': (None, 'C02', 'two empty files in one UDF directory, written and reopened, then rm_file(udf_path) of one of them', ['C02', 'C07']),
+ 'C02-r3-last-dup-pvd-root': (None, 'C02', 'three PVDs (duplicate_pvd twice), reopened, then an edit that makes the root directory grow', ['C02']),
+ 'C04-r3-pt-floor-vs-ceiling': (None, 'C04', 'a path table larger than 4096 bytes, a removal that leaves exactly 4096, then any add_directory', ['C04', 'C03']),
+ 'C04-r3-dup-pvd-pt-skip': (None, 'C04', 'duplicate_pvd before enough add_directory calls push the path table past 4096 bytes', ['C04', 'C03']),
+ 'C07-r3-rm-eltorito-shared-boot-file': (None, 'C07', 'one boot file referenced by two El Torito entries, rm_eltorito, then removal of the file', ['C07', 'C11']),
+ 'C07-r3-udf-num-udf-guard': (None, 'C07', 'one content with two UDF names, a reopen, then an edit that moves the File Entries', ['C07', 'C02']),
+ 'C08-r3-cl-not-counted-in-ce': (None, 'C08', 'a relocated directory whose Rock Ridge name is long enough that the CL entry moves into the continuation area', ['C08']),
+ 'C08-r3-link-count-sign-in-ce': (None, 'C08', 'a long-named directory (PX in the continuation area) and the removal of one of its sub-directories', ['C08']),
+ 'C10-r3-shrink-info-len': (None, 'C10', 'modify_file_in_place with a strictly smaller length on a file that has a UDF name', ['C17', 'C10']),
+ 'C10-r3-partition-map-swapped': (None, 'C10', 'open an existing UDF image and write it (odd generations)', ['C10', 'C05']),
+ 'C11-r3-bit-hidden-length-check': (None, 'C11', 'boot info table on a hidden boot file whose length is not a multiple of 2048; write, reopen, an edit that moves the file, write', ['C11']),
+ 'C11-r3-section-not-last-first': (None, 'C11', 'four or more add_eltorito calls on one image', ['C11']),
+ 'C12-r3-stale-gpt-early-return': (None, 'C12', 'EFI hybrid whose image size changes while the EFI image stays put (second write, or open + add + write)', ['C12']),
+ 'C12-r3-padding-floor': (None, 'C12', 'EFI hybrid with tiny cylinders (heads x sectors <= 32)', ['C12']),
+ 'C17-r3-hoisted-record-length': (None, 'C17', 'a second directory record of the file (Joliet name or hard link) whose record length differs from the ISO9660 one', ['C17']),
+ 'C17-r3-boundary-ge-offsets': (None, 'C17', 'as C17-r2-boundary-ge-offsets (independently written)', ['C17']),
+ 'C20-r3-hash-not-chained': (None, 'C20', '-scan-for-duplicates with two different files of the same size >= 32 KiB that share their last 32 KiB chunk', ['C20']),
+ 'C20-r3-udf-symlink-last-dot': (None, 'C20', 'a UDF symlink whose last component is . or .., extracted through the UDF view', ['C20']),
 }
 only = sys.argv[1:]
 if only == ['--collect']:
